@@ -11,30 +11,6 @@ def src_of(case):
     return case.get("src", "")
 
 
-# C01-N31 (C02-N8): a store (=, op=, ++, --, destructuring target, for-in/of target) to the own name of a named function expression inside its body
-N31_RE = re.compile(r"function\s*\*?\s*([A-Za-z_$][\w$]*)\s*\([^)]*\)\s*\{.*?(?:\b\1\s*(?:=(?!=)|\+\+|--|[-+*/%&|^]=|<<=|>>>?=|\*\*=|\?\?=|&&=|\|\|=)|(?:\+\+|--)\s*\1\b"
-                    r"|[\[{,:]\s*(?:\.\.\.)?\s*\1\s*[}\],][^;]*=(?!=)|\bfor\s*\(\s*\1\s+(?:of|in)\b)", re.S)   # also as a destructuring / for-in-of target
-
-
-def pred_n31(case, record, expected_text):
-    obs = record.get("obs", "")
-    m = re.match(r"crash=(\d+)", obs)
-    crash = int(m.group(1)) if m else 0
-    # verifier rejection (crash bits 0), leaked operand seen by VerifIdle (16) or the type-confused instruction panicking (1)
-    return (crash & ~(16 | 1)) == 0 and bool(N31_RE.search(src_of(case)))
-
-
-# C01-N32: an arrow function whose body contains yield
-N32_RE = re.compile(r"=>\s*(?:\{[^{}]*\byield\b|[(\s]*yield\b)")
-
-
-def pred_n32(case, record, expected_text):
-    obs = record.get("obs", "")
-    m = re.match(r"crash=(\d+)", obs)
-    crash = int(m.group(1)) if m else 0
-    return crash == 1 and "nil pointer dereference" in obs and bool(N32_RE.search(src_of(case)))
-
-
 def candidates(case):
     """source-level shrinking: drop a line, then drop a top-level ;-separated chunk"""
     src = src_of(case)
@@ -153,8 +129,7 @@ CFG = {
         "builtins, the parser and the lexer are covered only by the crash search, not by proof",
         "an instruction kind missing from the table makes the verifier skip the body (reported as coverage gap)",
     ],
-    "predicates": {"C01.store_to_named_function_expression_own_name_discarded": pred_n31,
-                   "C01.yield_inside_arrow_function_in_generator": pred_n32},
+    "predicates": {},
     "manifest": {
         "text": ("translation validation, partial: a bytecode verifier (work-list abstract interpretation of operand-stack height, stack "
                  "locals, variadic markers and the try stack) is proved sound in Rocq against a small-step model of the VM's stack "
